@@ -239,6 +239,29 @@ pub fn generate(ctx: &mut Ctx) {
         }
         named.push(Value::Dict(dd));
     }
+    // display macros whose `$` stands where nothing can follow it (end of the pattern, before a blank, doubled), alone
+    // and after a macro that resolves - a scanner that looks at "the character after `$`" must not look past the end
+    for pat in ["$", "a$", "US$", "$$", "$ ", "cost in $", "$a$", "${a}$", "$<a>$", "${", "$<", "${a", "$<a", "é$", "$é", "😀$"] {
+        for with_a in [false, true] {
+            let mut dd = Dict::new();
+            dd.insert("disMacro".into(), Value::make_str(pat));
+            if with_a {
+                dd.insert("a".into(), Value::make_str("x$"));
+            }
+            named.push(Value::Dict(dd.clone()));
+            named.push(Value::List(vec![Value::Dict(dd)]));
+        }
+    }
+    // leap seconds (`23:59:60`, `12:30:60.25`: second 59 with 10^9 or more nanoseconds), as both decoders hand them out
+    for (h, m, ns) in [(23u32, 59u32, 1_000_000_000u32), (12, 30, 1_250_000_000), (0, 0, 1_999_999_999), (7, 7, 1_000_000_001), (23, 59, 1_500_000_000)] {
+        let t = Value::Time(Time::from(chrono::NaiveTime::from_hms_nano_opt(h, m, 59, ns).unwrap()));
+        named.push(t.clone());
+        let mut dd = Dict::new();
+        dd.insert("dis".into(), t.clone());
+        dd.insert("t".into(), t.clone());
+        named.push(Value::List(vec![t.clone(), Value::Dict(dd.clone())]));
+        named.push(Value::Grid(Grid::make_from_dicts(vec![dd])));
+    }
     for v in named {
         ctx.case("named", &format!("v {}", vx::show(&v)));
     }
